@@ -1185,6 +1185,8 @@ def m_into(engine, ctx, args, callee, frame):
         return engine.run_fn(fn, args)
     if strip_generics(src) == strip_generics(dst):
         return args[0]
+    if last_ident(src) == last_ident(dst) and last_ident(src) == "Error" and (src.endswith("error::Error") or dst.endswith("error::Error")):
+        return args[0]          # the same crate-local error type printed with and without its module path
     mm = engine.find_model("<%s as From<%s>>::from" % (dst, src))
     if mm is not None and mm is not m_into:
         return mm(engine, ctx, args, "<%s as From<%s>>::from" % (dst, src), frame)
@@ -3105,3 +3107,17 @@ def m_duration_millis(engine, ctx, args, callee, frame):
 from .engine import CONST_MODELS     # noqa: E402
 CONST_MODELS.append((re.compile(r"(^|::)OffsetDateTime::UNIX_EPOCH$"), lambda engine: odt(Int(0, 64, True), Int(0, 32))))
 CONST_MODELS.append((re.compile(r"(^|::)Duration::ZERO$"), lambda engine: Agg("struct", "Duration", [Cell(Int(0, 64, True)), Cell(Int(0, 32, True))])))
+
+
+
+def _int_const(engine, name):
+    m = re.search(r"core::num::<impl ([ui](?:8|16|32|64|128|size))>::(BITS|MAX|MIN)$", name)
+    bits, signed = int_type(m.group(1))
+    if m.group(2) == "BITS":
+        return Int(bits, 32)
+    if m.group(2) == "MAX":
+        return Int((1 << (bits - 1)) - 1 if signed else (1 << bits) - 1, bits, signed)
+    return Int(-(1 << (bits - 1)) if signed else 0, bits, signed)
+
+
+CONST_MODELS.append((re.compile(r"core::num::<impl ([ui](?:8|16|32|64|128|size))>::(BITS|MAX|MIN)$"), _int_const))
